@@ -175,7 +175,7 @@ func (e *Explorer) execute(prefix []int, tracing bool, recorded []string) (c *Ct
 	defer func() {
 		if r := recover(); r != nil {
 			if he, ok := r.(HarnessError); ok {
-				herr = he
+				herr = HarnessError{fmt.Sprintf("%s [scenario %s prefix %v]", he.Msg, e.scen.Name, prefix)}
 			} else {
 				herr = HarnessError{fmt.Sprintf("body panicked in scenario %s choices %v: %v\n%s", e.scen.Name, c.Choices, r, debug.Stack())}
 			}
